@@ -369,6 +369,12 @@ Theorem udp_answer_within_timeout :
 Proof. exact NetUdp.udp_answer_within_timeout. Qed.
 Print Assumptions udp_answer_within_timeout.
 
+Theorem tcp_answer_within_timeout :
+  forall (parse : list Z -> pabs) q qwire T it wevs stream revs now m wire t sent sk,
+  tcp parse q qwire (Some T) it wevs stream revs now = Ok (m, wire, t, sent, sk) -> t = 0 \/ t < T.
+Proof. exact NetStream.tcp_answer_within_timeout. Qed.
+Print Assumptions tcp_answer_within_timeout.
+
 (* ---------------- octet level, for the parser of the correspondence runs ---------------- *)
 (* `lookup tab` is the parser `run` uses: descriptions supplied by the harness, each checked against
    its own wire string (header length, id and flags octets).  Whatever table is supplied, the
